@@ -608,3 +608,190 @@ Proof.
   - destruct (S C) as [A|[x A]]; [exact A | rewrite Q in A; discriminate].
   - destruct (D C) as [A|[x A]]; [exact A|]. specialize (Q x). destruct (pcof s x); discriminate.
 Qed.
+
+(* ---- every reader is released: a stream handle is either still registered or its queue is closed ---- *)
+Definition reader_ok (s : state) : Prop :=
+  forall u sid, t_sid (tasks s u) = Some sid -> In (sid, u) (table s) \/ t_rclosed (tasks s u) = true.
+
+(* fields of other tasks: the stream handle is kept (or dropped, when the task's open failed), a closed
+   queue stays closed *)
+Definition keeps_stream (x y : task) : Prop :=
+  (t_sid y = t_sid x \/ t_sid y = None) /\ (t_rclosed x = true -> t_rclosed y = true).
+
+Lemma ks_refl x : keeps_stream x x. Proof. split; auto. Qed.
+Lemma ks_trans x y z : keeps_stream x y -> keeps_stream y z -> keeps_stream x z.
+Proof. intros [[A|A] B] [[C|C] D]; split; auto; try (right; congruence); left; congruence. Qed.
+
+Lemma ks_with_res x r : keeps_stream x (with_res x r). Proof. split; auto. Qed.
+Lemma ks_with_pc x p : keeps_stream x (with_pc x p). Proof. split; auto. Qed.
+Lemma ks_clear x : keeps_stream x (clear_sid x). Proof. split; auto. Qed.
+
+Lemma ks_finish_close s w a k u : keeps_stream (tasks s u) (tasks (finish_close s w a k) u).
+Proof.
+  destruct (Nat.eq_dec u w) as [->|H].
+  - destruct a; [| destruct k |]; cbn; rewrite ?upd_same; split; auto.
+  - rewrite tasks_finish_close_other by exact H. apply ks_refl.
+Qed.
+
+Lemma ks_finish_w s w k r u : keeps_stream (tasks s u) (tasks (finish_w s w k r) u).
+Proof.
+  destruct (Nat.eq_dec u w) as [->|H].
+  - destruct k, r; cbn; rewrite ?upd_same; split; auto.
+  - destruct k, r; cbn; rewrite upd_other by exact H; apply ks_refl.
+Qed.
+
+Lemma ks_set_pc s w p u : keeps_stream (tasks s u) (tasks (set_pc s w p) u).
+Proof.
+  destruct (Nat.eq_dec u w) as [->|H]; cbn; [rewrite upd_same; split; auto | rewrite upd_other by exact H; apply ks_refl].
+Qed.
+
+Lemma ks_finish s w r u : keeps_stream (tasks s u) (tasks (finish s w r) u).
+Proof.
+  destruct (Nat.eq_dec u w) as [->|H]; cbn; [rewrite upd_same; split; auto | rewrite upd_other by exact H; apply ks_refl].
+Qed.
+
+Lemma ks_release_ws ws : forall s u, keeps_stream (tasks s u) (tasks (release_ws ws s) u).
+Proof.
+  induction ws as [|w ws IH]; intros s u; cbn [release_ws]; [apply ks_refl|].
+  destruct (t_pc (tasks s w)); try apply ks_refl.
+  - apply (ks_set_pc (set_lock s (Some w) ws) w (PW3 k f) u).
+  - eapply ks_trans; [|apply IH]. apply (ks_finish_close (set_shut s) w a k u).
+Qed.
+
+Lemma ks_enter_close s w a k u : keeps_stream (tasks s u) (tasks (enter_close s w a k) u).
+Proof. unfold enter_close. destruct (closed s); [apply ks_finish_close | apply (ks_set_pc (set_closed s))]. Qed.
+
+Lemma ks_set_task s t v u : keeps_stream (tasks s t) v -> keeps_stream (tasks s u) (tasks (set_task s t v) u).
+Proof.
+  intros H. destruct (Nat.eq_dec u t) as [->|Hne]; cbn; [rewrite upd_same; exact H | rewrite upd_other by exact Hne; apply ks_refl].
+Qed.
+
+Lemma table_enter_close s w a k : table (enter_close s w a k) = table s.
+Proof. unfold enter_close. destruct (closed s); [apply table_finish_close | reflexivity]. Qed.
+
+Lemma reader_ok_keep s s' :
+  reader_ok s -> table s' = table s -> (forall u, keeps_stream (tasks s u) (tasks s' u)) -> reader_ok s'.
+Proof.
+  intros R T K u sid H. destruct (K u) as [[E|E] M]; [|congruence].
+  rewrite E in H. destruct (R u sid H) as [A|A]; [left; rewrite T; exact A | right; apply M; exact A].
+Qed.
+
+Lemma in_remove_owner tb sid u o : In (sid, u) tb -> u <> o -> In (sid, u) (remove_owner tb o).
+Proof.
+  intros H Hne. unfold remove_owner. apply filter_In. split; [exact H|]. cbn.
+  apply negb_true_iff. apply Nat.eqb_neq. exact Hne.
+Qed.
+
+Lemma reader_ok_feed s ev : reader_ok s -> reader_ok (feed_ev s ev).
+Proof.
+  intros R. unfold feed_ev. destruct (negb (ralive s)); [exact R|].
+  destruct ev.
+  - destruct (lookup_owner (table s) owner); [|exact R].
+    destruct (t_verdict (tasks s owner)); [exact R|].
+    eapply reader_ok_keep; [exact R | reflexivity | intros u; apply ks_set_task; split; auto].
+  - destruct (lookup_owner (table s) owner); [|exact R].
+    eapply reader_ok_keep; [exact R | reflexivity | intros u; apply ks_set_task; split; auto].
+  - destruct (lookup_owner (table s) owner); [|exact R].
+    intros u sid H. cbn [table set_table]. cbn [tasks set_table set_task set_tasks] in *.
+    destruct (Nat.eq_dec u owner) as [->|Hne].
+    + right. rewrite upd_same. reflexivity.
+    + rewrite upd_other in * by exact Hne. destruct (R u sid H) as [A|A]; [left; apply in_remove_owner; assumption | right; exact A].
+  - destruct (pc_is_idle (t_pc (tasks s rtid))); [|exact R].
+    eapply reader_ok_keep; [exact R | apply table_enter_close | intros u; apply ks_enter_close].
+  - destruct (pc_is_idle (t_pc (tasks s rtid))); [|exact R].
+    eapply reader_ok_keep; [exact R | apply table_enter_close | intros u; apply ks_enter_close].
+  - destruct (pc_is_idle (t_pc (tasks s rtid))); [|exact R].
+    eapply reader_ok_keep; [exact R | reflexivity | intros u; apply ks_set_pc].
+Qed.
+
+Lemma reader_ok_drain s t p :
+  reader_ok s ->
+  reader_ok (set_pc (set_table (set_tasks s (drain (table s) (tasks s))) (next_sid s) []) t p).
+Proof.
+  intros R u sid H.
+  assert (keeps_stream (drain (table s) (tasks s) u)
+            (tasks (set_pc (set_table (set_tasks s (drain (table s) (tasks s))) (next_sid s) []) t p) u)) as K
+    by (apply (ks_set_pc (set_table (set_tasks s (drain (table s) (tasks s))) (next_sid s) []) t p u)).
+  destruct K as [[E|E] M]; [|congruence].
+  change (tasks (set_table (set_tasks s (drain (table s) (tasks s))) (next_sid s) []) u) with (drain (table s) (tasks s) u) in E.
+  rewrite E in H. destruct (drain_keeps (table s) (tasks s) u) as (A & _ & B & _).
+  rewrite B in H. right. apply M.
+  destruct (R u sid H) as [Hin|Hc]; [apply (drain_releases _ _ _ _ Hin) | apply A; exact Hc].
+Qed.
+
+Theorem step_reader_ok s t s' : reader_ok s -> step s t = Some s' -> reader_ok s'.
+Proof.
+  intros R H. unfold step in H.
+  destruct (t_pc (tasks s t)) eqn:Epc.
+  - destruct (t_prog (tasks s t)) as [|c rest]; [discriminate|].
+    unfold start_call in H. set (x := with_prog (tasks s t) rest) in *. set (s0 := set_task s t x) in *.
+    assert (reader_ok s0) as R0.
+    { eapply reader_ok_keep; [exact R | reflexivity | intros u; apply ks_set_task; split; auto]. }
+    assert (forall v, keeps_stream x v -> forall u, keeps_stream (tasks s0 u) (tasks (set_task s0 t v) u)) as KS.
+    { intros v Hv u. apply ks_set_task. unfold s0. cbn. rewrite upd_same. exact Hv. }
+    destruct c;
+      repeat match type of H with
+             | context [match ?y with _ => _ end] => destruct y eqn:?
+             end; inversion H; subst s'; clear H;
+      try (eapply reader_ok_keep; [exact R0 | reflexivity | intros u; first [apply ks_finish | apply KS; split; auto]]; fail).
+    + (* COpen registers the stream *)
+      intros u sid H. cbn [table set_task set_tasks set_table]. cbn [tasks set_task set_tasks set_table] in H.
+      destruct (Nat.eq_dec u t) as [->|Hne].
+      * rewrite upd_same in H. cbn in H. inversion H; subst. left. apply in_or_app. right. left. reflexivity.
+      * rewrite upd_other in H by exact Hne. cbn [tasks set_table] in H.
+        destruct (R0 u sid H) as [A|A]; [left; apply in_or_app; left; exact A | right].
+        cbn. rewrite upd_other by exact Hne. exact A.
+    + (* CTimeout on a pending verdict *)
+      eapply reader_ok_keep; [exact R0 | reflexivity|]. intros u.
+      eapply ks_trans; [apply KS with (v := with_verdict x (Some ResTimeout)); split; auto | apply ks_finish].
+    + (* CRead consuming a chunk *)
+      eapply reader_ok_keep; [exact R0 | reflexivity|]. intros u.
+      eapply ks_trans; [apply KS with (v := with_rq x n0 (t_rclosed x)); split; auto | apply ks_finish].
+    + eapply reader_ok_keep; [exact R0 | apply table_enter_close | intros u; apply ks_enter_close].
+    + eapply reader_ok_keep; [exact R0 | reflexivity | intros u; apply (ks_finish (set_buffering s0 false))].
+    + eapply reader_ok_keep; [exact R0 | reflexivity | intros u; apply (ks_finish (set_buffering s0 true))].
+    + eapply reader_ok_keep; [exact R0 | reflexivity | intros u; apply (ks_finish (set_failing s0))].
+    + eapply reader_ok_keep; [apply reader_ok_feed; exact R0 | reflexivity | intros u; apply ks_finish].
+  - destruct (closed s); [|destruct (buffering s)]; inversion H; subst.
+    + eapply reader_ok_keep; [exact R | apply table_finish_w | intros u; apply ks_finish_w].
+    + eapply reader_ok_keep; [exact R | reflexivity | intros u; apply ks_set_pc].
+    + eapply reader_ok_keep; [exact R | reflexivity | intros u; apply ks_set_pc].
+  - inversion H; subst.
+    eapply reader_ok_keep; [exact R | rewrite table_finish_w; reflexivity | intros u; apply (ks_finish_w (set_queue s _ _))].
+  - destruct (wr s); inversion H; subst;
+      (eapply reader_ok_keep; [exact R | reflexivity | intros u; apply (ks_set_pc (set_lock s _ _))]).
+  - discriminate.
+  - inversion H; subst. eapply reader_ok_keep; [exact R | reflexivity | intros u; apply (ks_set_pc (set_queue s _ _))].
+  - destruct (failing s || shut s); inversion H; subst.
+    + set (s1 := set_wire s (pkt s + 1)%N (wire s)).
+      eapply reader_ok_keep; [exact R | | intros u; eapply ks_trans; [apply (ks_release_ws (waiters s1) s1 u) | apply ks_set_pc]].
+      cbn [table set_pc set_task set_tasks]. unfold release. destruct (release_ws_closed (waiters s1) s1) as [_ B]. exact B.
+    + set (s1 := set_wire s (pkt s + 1)%N (wire s ++ [((pkt s + 1)%N, held)])).
+      eapply reader_ok_keep; [exact R | | intros u; eapply ks_trans; [apply (ks_release_ws (waiters s1) s1 u) | apply ks_finish_w]].
+      rewrite table_finish_w. unfold release. destruct (release_ws_closed (waiters s1) s1) as [_ B]. exact B.
+  - inversion H; subst. eapply reader_ok_keep; [exact R | apply table_enter_close | intros u; apply ks_enter_close].
+  - inversion H; subst. apply reader_ok_drain. exact R.
+  - destruct (wr s); inversion H; subst.
+    + eapply reader_ok_keep; [exact R | reflexivity | intros u; apply (ks_set_pc (set_lock s _ _))].
+    + eapply reader_ok_keep; [exact R | rewrite table_finish_close; reflexivity | intros u; apply (ks_finish_close (set_shut s))].
+  - discriminate.
+  - inversion H; subst. eapply reader_ok_keep; [exact R | reflexivity | intros u; apply ks_set_task; split; auto].
+Qed.
+
+Lemma reader_ok_init progs buf pend : reader_ok (init progs buf pend).
+Proof. intros u sid H. cbn in H. discriminate. Qed.
+
+(* assembled: in a dead session every task that holds a stream has its queue closed: its reads return the
+   data already queued and then end-of-stream, they never park *)
+Theorem dead_session_readers sched progs buf pend :
+  let s := run (init progs buf pend) sched in
+  closed s = true -> quiescent_close s ->
+  forall u sid, t_sid (tasks s u) = Some sid -> t_rclosed (tasks s u) = true.
+Proof.
+  intros s C Q u sid H.
+  assert (reader_ok s) as R.
+  { unfold s. apply (run_invariant reader_ok); [| apply inv_init | apply reader_ok_init].
+    intros s1 t s2 _ R1 H1. eapply step_reader_ok; eauto. }
+  destruct (dead_session_released sched progs buf pend C Q) as [_ T]. fold s in T.
+  destruct (R u sid H) as [A|A]; [rewrite T in A; destruct A | exact A].
+Qed.
